@@ -103,6 +103,26 @@ def run(ctx):
                  sample={k: cfg[k] for k in ("joint", "N", "W", "K", "lens")} if completed <= 4 else None)
     ctx.extra["runs_completed"] = completed
 
+    # ---------------- the same with a real worker pool (the documented switch on, several processors): joint calls whose
+    # series come in an order that is neither ascending nor descending in length, and single-series calls
+    if ctx.replay is None:
+        for rep in range(3 if ctx.quick() else 16):
+            jc = tu.gen_config(ctx.rng, joint=(rep % 3 != 2))
+            jc.update({"limit": 2, "K": 2, "nproc": ctx.rng.choice([2, 3, 4]), "mp": True})
+            jc.pop("completion", None)
+            if jc["joint"]:
+                ls = [jc["W"] + ctx.rng.randint(25, 80) for _ in range(ctx.rng.choice([3, 4]))]
+                ls[0], ls[1] = min(ls[0], ls[1]), max(ls[0], ls[1]) + 7
+                ls[2] = (ls[0] + ls[1]) // 2
+                jc["lens"] = ls
+            res, _tr, err, series = tu.execute(jc, trace=False)
+            ctx.count("pool_runs_joint" if jc["joint"] else "pool_runs_single")
+            if err is not None:
+                ctx.count("pool_runs_raised:" + type(err).__name__)
+                continue
+            check_result_shape(ctx, jc, res, series)
+            ctx.case(("pool", repr(sorted(jc.items()))), nontrivial=True)
+
     # ---------------- front-end replay: FrontEnd.single / FrontEnd.joint (Lean) on the raw series of real calls
     if ctx.replay is None:
         replay_run.front_end_section(ctx, cfgs, 6 if ctx.quick() else 40)
